@@ -46,11 +46,20 @@ class Report:
     assumptions: List[str] = field(default_factory=list)
     rules: Dict[str, str] = field(default_factory=dict)
     instances: int = 0
+    min_obs: Dict[str, int] = field(default_factory=dict)
     _seen: Set = field(default_factory=set)
 
     # ------------------------------------------------------------------ recording
-    def rule(self, rid: str, text: str) -> None:
+    def rule(self, rid: str, text: str, min_obs: int = 1) -> None:
         self.rules[rid] = text
+        self.min_obs[rid] = min_obs
+
+    def check_nonvacuous(self) -> None:
+        """Every declared rule must have matched at least `min_obs` constructs."""
+        for rid, need in self.min_obs.items():
+            got = len({o.key for o in self.obligations if o.rule == rid})
+            if got < need:
+                raise AnalysisError(f"rule {rid} matched {got} construct(s), fewer than the {need} confirmed by hand (vacuous rule)")
 
     def ob(self, rule: str, key: str, ok: bool, where: str = "", detail: str = "", sample: Any = None) -> bool:
         sig = (rule, key, bool(ok))
